@@ -89,10 +89,24 @@ def kuhn_optimum(a, b, edges):
     return n
 
 
-def judge(a, b, edges, opt, fails):
+def judge(a, b, edges, opt, fails, repeat=True):
     """Run the real code on one graph and judge; returns list of (clause, detail)."""
     g = BipartiteGraph(a, b, edges)
-    m = HopcroftKarp(g)()
+    hk = HopcroftKarp(g)
+    m = hk()
+    # the routine is an object that can be invoked again (history of calls on the same object): every invocation must return a
+    # maximum matching, and an earlier result must not change afterwards
+    m_first = list(m)
+    for rep in ((2, 3) if repeat else ()):
+        m_again = hk()
+        if sorted(m_again) != sorted(m_first) and (len(m_again) != opt or len(set(u for u, _ in m_again)) != len(m_again)
+                                                   or len(set(v for _, v in m_again)) != len(m_again)
+                                                   or not all(e in set(edges) for e in m_again)):
+            fails.append(('repeated_invocation_returns_maximum_matching', f'call {rep}: {m_again}'))
+            break
+    if list(m) != m_first:
+        fails.append(('earlier_result_unchanged_by_later_invocation', f'{m_first} -> {m}'))
+        m = m_first
     eset = set(edges)
     us = [u for u, _ in m]
     vs = [v for _, v in m]
@@ -133,7 +147,7 @@ def _run_mask_chunk(chunk, seed):
         fails = []
         signal.setitimer(signal.ITIMER_REAL, core.CASE_TIMEOUT_S)
         try:
-            m, uc, vc = judge(a, b, edges, int(opt), fails)
+            m, uc, vc = judge(a, b, edges, int(opt), fails, repeat=(a * b <= 16))
             h = hash((h, tuple(m), tuple(uc), tuple(vc)))
         except core.CaseTimeout:
             fails.append(('termination', 'no result within time limit'))
@@ -269,7 +283,7 @@ def spaces(tier, seed):
         for lo in range(0, total, step):
             chunks.append((a, b, lo, min(total, lo + step)))
     sp1 = Space('edge_subsets', chunks, run_chunk=_run_mask_chunk, run_case=run_graph_case,
-                bounds={'shapes': [list(s) for s in shapes], 'what': 'every subset of the a*b possible edges'})
+                bounds={'shapes': [list(s) for s in shapes], 'what': 'every subset of the a*b possible edges; for a*b <= 16 the same HopcroftKarp object is invoked three times'})
     sp2 = Space('edge_sequences', core.chunked(_seq_cases(seqlen), 2000), run_case=run_graph_case,
                 bounds={'a,b<=': 3, 'max_sequence_length': seqlen,
                         'what': 'every edge sequence with repetition (orderings and duplicates)'})
